@@ -307,8 +307,30 @@ pub fn import(cfg: &CssCfg) -> BoxedStrategy<Node> {
         1 => (prop_oneof![Just("URL"), Just("Url"), Just("uRL")], path).prop_map(|(n, p): (&str, String)| ImportForm::UrlFnNamed(n.to_string(), p)),
         1 => prop_oneof![Just("foo.css"), Just("./a/b")].prop_map(|s: &str| ImportForm::Url(s.to_string())),
     ];
-    (form, proptest::option::weighted(0.3, proptest::option::of(pick(PLAIN_CLASS_NAMES))), proptest::option::weighted(0.3, (pick(PROPS), proptest::collection::vec(numeric(cfg), 1..2))), proptest::option::weighted(0.4, media_cond(cfg, 1)))
-        .prop_map(|(form, layer, supports, media)| Node::Import(Import { form, layer, supports, media }))
+    (
+        form,
+        proptest::option::weighted(0.3, proptest::option::of(pick(PLAIN_CLASS_NAMES))),
+        proptest::option::weighted(0.3, (pick(PROPS), proptest::collection::vec(numeric(cfg), 1..2))),
+        proptest::option::weighted(0.4, media_cond(cfg, 1)),
+        proptest::option::weighted(0.2, proptest::collection::vec(complex(cfg, 1), 1..3)),
+        proptest::option::weighted(0.2, (prop_oneof![Just("layer"), Just("LAYER"), Just("Layer")], proptest::option::of(media_cond(cfg, 0)))),
+    )
+        .prop_map(|(form, layer, supports, media, supports_sel, layer_media)| {
+            // `supports(selector(..))` instead of the declaration form
+            let (supports, supports_sel) = if supports_sel.is_some() { (None, supports_sel) } else { (supports, None) };
+            // after `layer(..)` / `supports(..)` an identifier `layer` is the first media query, not the layer keyword
+            let media = match layer_media {
+                Some((word, rest)) if layer.is_some() || supports.is_some() || supports_sel.is_some() => {
+                    let first = MediaCond::Ident(word.to_string());
+                    Some(match rest {
+                        Some(r @ MediaCond::Feature(..)) => MediaCond::And(Box::new(first), Box::new(r)),
+                        _ => first,
+                    })
+                }
+                _ => media,
+            };
+            Node::Import(Import { form, layer, supports, media, supports_sel })
+        })
         .boxed()
 }
 
